@@ -3102,6 +3102,15 @@ def update_working_tree(
             path = change.old.path
             if not validate_path(path, validate_path_element):
                 continue
+            # A leading directory may have just been replaced by a symlink
+            # from the new tree (changes are applied in path order, "a"
+            # before "a/config"): the file to delete went away with the
+            # directory, and following the link would delete something
+            # outside the work tree or inside .git instead.
+            try:
+                verify_leading_dirs(path, [], repo_path)
+            except InvalidPathError:
+                continue
 
             full_path = _tree_to_fs_path(repo_path, path, tree_encoding)
             try:
